@@ -50,7 +50,7 @@ CHECKS.update({
         "abort_if turning True at every poll index of fixed runs (enumerated) and of generated runs; AbortRetryError / KeyboardInterrupt / SystemExit / CancelledError raised by the operation at attempt k; oracle: poll before every attempt and sleep, nothing after True, same exception object out, never classified.",
         E1_NOTE + "; cancellation at await points and inside sleeps is covered by the C08 stepper", "DESIGN.md §3 C13"),
     "C14": _std("exploration", "Hypothesis-generated runs; event-grammar oracle (retry* terminal) with three-sink parity",
-        "Generated runs with metric/log/both sinks and timeline capture; oracle is the grammar retry(attempt=i)* terminal, tag/stop-reason agreement with what is delivered, and metric/log/timeline parity.",
+        "Generated runs with metric/log/both sinks and timeline capture; oracle is the grammar retry(attempt=i)* terminal, tag/stop-reason agreement with what is delivered, and metric/log/timeline parity, also while the metric or log hook raises on some or all events.",
         E1_NOTE, "DESIGN.md §3 C14"),
     "C16": _std("exploration", "Hypothesis-generated handler decision sequences x callback placements + exhaustive placement product; protocol-grammar oracle",
         "Generated decision sequences and callback placements through 20 entry points plus the complete product of placements x decision sequences x callback flavours; oracle is the per-retry protocol (consult once, before_sleep, sleep once, next attempt / SCHEDULED / ABORTED) and call-over-policy precedence.",
@@ -59,11 +59,11 @@ CHECKS.update({
         "For every generated case all crash points are enumerated (not sampled): each callback invocation raising ordinary/KeyboardInterrupt/SystemExit/CancelledError, and for async entries each exception type thrown into (or close() of) the coroutine at each await point; oracle uses public behaviour only: after the call ends and recovery_timeout_s elapses the next allow() must be admitted.",
         E1_NOTE + "; async entry points are driven without an event loop (coro.send/throw/close), suspension points are the operation's awaits and the sleeps", "DESIGN.md §3 C08"),
     "C09": _std("exploration", "Hypothesis-generated call sequences sharing one real breaker behind a spy; exactly-one-record oracle by final outcome",
-        "Generated sequences of 1-4 calls through 10 Policy entry points sharing a breaker that starts closed/open/half-open-ready; every admitted call must make exactly one record of the kind/class its final outcome implies, rejected calls none.",
+        "Generated sequences of 1-4 calls through 10 Policy entry points sharing a breaker that starts closed/open/half-open-ready; every admitted call must make exactly one record of the kind/class its final outcome implies, rejected calls none; a second stream makes one of the caller's callbacks (attempt hooks, classifier, strategy, sleep handler, sleeper, abort_if, before_sleep, metric/log hook) raise an ordinary exception / KeyboardInterrupt / SystemExit / CancelledError at its j-th invocation and still requires exactly one record per admitted call.",
         E1_NOTE + "; a nested CircuitOpenError as the final failure only needs exactly one record (tests pin that it is not counted)", "DESIGN.md §3 C09"),
     "C12": _std("exploration", "Differential testing: one generated case through 28 entry points, pairwise trace equality after call/execute normalisation",
         "Differential oracle: the same generated case is executed through every entry point (Retry/Policy/RetryPolicy, from_config, context managers, @retry; call/execute; sync/async; plus breaker and no-retry groups) and the complete observable traces must be equal.",
-        E1_NOTE + "; classifier invocations and attempt hooks are excluded from the comparison (not listed by the property; see DESIGN.md observations)", "DESIGN.md §3 C12"),
+        E1_NOTE + "; classifier invocations are excluded from the comparison; attempt hooks are compared only among entry points that deliver the result the same way (call with call, execute with execute; see DESIGN.md observations)", "DESIGN.md §3 C12"),
     "C15": _std("fault_enumeration", "Hypothesis-selected cases x exhaustive enumeration of (hook, invocation index | always) x rotating exception types; trace-equality metamorphic oracle",
         "For every generated case each hook invocation is faulted in turn (and 'always'), with exception types rotating over 9 Exception subclasses; the observable trace must equal the silent-hook trace, including the other sink, the timeline, breaker and budget calls.",
         E1_NOTE, "DESIGN.md §3 C15"),
